@@ -46,7 +46,9 @@ class Edits:
         # inserts at the same position keep (order, registration order)
         out = []
         cur = lo
-        es = sorted(enumerate(self.e), key=lambda x: (x[1][0], x[1][3], x[0]))
+        # at one position: pure insertions first (by their order), then replacements, the one that removes most first (an
+        # enclosing abstraction wins over a token-level rename that starts at its first token)
+        es = sorted(enumerate(self.e), key=lambda x: (x[1][0], (x[1][3] if x[1][1] == 0 else 10), -x[1][1], x[0]))
         # an edit that starts inside a region some pure deletion removes disappears with that region
         dels = [(p_, p_ + d_) for (_i, (p_, d_, i_, _o)) in es if d_ > 0 and i_ == '']
         def swallowed(idx, pos, dl, ins):
@@ -406,6 +408,19 @@ class Assembler:
                 if j < end:
                     kc = m[j]
                     inner = [q for q in range(j + 1, kc)]
+                    # statement-level logging macros inside the block are dropped anyway (5): they do not count
+                    q_ = j + 1
+                    skip_ = set()
+                    while q_ < kc:
+                        if s.is_id(q_) and s.s(q_) in LOG_MACROS and s.is_p(q_ + 1, '!') and s.kind(q_ + 2) == 'p' and s.s(q_ + 2) in '([{':
+                            qe_ = m[q_ + 2]
+                            if s.is_p(qe_ + 1, ';'):
+                                qe_ += 1
+                            skip_.update(range(q_, qe_ + 1))
+                            q_ = qe_ + 1
+                            continue
+                        q_ += 1
+                    inner = [q for q in inner if q not in skip_]
                     if len(inner) == 2 and s.is_id(inner[0], 'continue') and s.is_p(inner[1], ';') and not s.is_id(kc + 1, 'else'):
                         loop_close = self._for_body_stmt_starts[id(fp)][k]
                         ed.delete(s.t[inner[0]][1], s.t[inner[1]][2])
